@@ -591,10 +591,9 @@ def resolve_strategy_inline_recurse(path, base, decisions):
                 }
 
             elif k == 'id':
-                cell[k] = {
-                    "local_id": lcell[k],
-                    "remote_id": rcell[k],
-                }
+                # A cell id has to be a string for the notebook
+                # to be valid, so keep the local one:
+                cell[k] = lcell[k]
 
             elif k == 'execution_count':
                 cell[k] = None  # Clear
